@@ -78,6 +78,9 @@ def pipe(ctx, verdict, cases, name="calls"):
         if r["write_in"]:
             n_lib += 1
             events.append(dict(ev="race", gor=0, seq=0, op=r["write_in"], arg="-", res="-", pre="-", post="-"))
+    # end-of-log marker: CallsTrace then demands that every argument of the log has had its final snapshot
+    events.append(dict(ev="end", gor=0, seq=0, op="-", arg="-", res="-", pre="-", post="-"))
+    initial = {e["arg"]: e["pre"] for e in events if e["ev"] == "init"}
     ctx.evaluations += len(events)
     viols = vlib.model_b(ctx, "CallsTrace", "Obs.cfg", events, name="CallsTrace", chunk=len(events) + 1)
     seen = set()
@@ -85,12 +88,18 @@ def pipe(ctx, verdict, cases, name="calls"):
         if v["sig"] in seen:
             continue
         seen.add(v["sig"])
-        verdict.add(name, v["sig"], c, dict(event=events[idx], races=[r["text"][:600] for r in races if r["write_in"]][:2]))
+        verdict.add(name, v["sig"], c, dict(event=events[idx], initial_snapshot=initial.get(events[idx]["arg"], "-"),
+                                            races=[r["text"][:600] for r in races if r["write_in"]][:2]))
     ctx.coverage_extra["trace"] = dict(events=len(events), calls_sequential=sum(1 for e in events if e["ev"] == "seq"),
                                        calls_concurrent=sum(1 for e in events if e["ev"] == "conc"), goroutines=c["goroutines"],
                                        race_reports=len(races), race_reports_with_library_write=n_lib,
                                        operations=len({e["op"] for e in events if e["ev"] == "seq"}),
-                                       arguments=len({e["arg"] for e in events if e["ev"] == "init"}))
+                                       arguments=len({e["arg"] for e in events if e["ev"] == "init"}),
+                                       final_snapshots=sum(1 for e in events if e["ev"] == "final"),
+                                       pairs_applicable=len({e["op"] + "@" + e["arg"] for e in events if e["ev"] == "seq" and e["res"] != "n/a"}),
+                                       pairs_called_concurrently=len({e["op"] + "@" + e["arg"] for e in events if e["ev"] == "conc"}),
+                                       results_error_class=sum(1 for e in events if e["ev"] == "seq" and e["res"].startswith("err:")),
+                                       results_panic=sum(1 for e in events if e["ev"] == "seq" and e["res"].startswith("panic:")))
     ctx.samples += [e for e in events if e["ev"] == "conc"][:3]
     for e in events:
         if e["ev"] in ("seq", "conc"):
@@ -110,10 +119,18 @@ def run(ctx, verdict):
     if any(r["write_in"] for r in races) and not all(r["write_in"] for r in races):
         pass
     ctx.coverage_extra["sensor_control"] = dict(race_reports=len(races), attributed_to_library=sum(1 for r in races if r["write_in"]))
-    pipe(ctx, verdict, [dict(goroutines=8 if ctx.quick else 32, rounds=300 if ctx.quick else 3000)])
+    pipe(ctx, verdict, [dict(goroutines=8 if ctx.quick else 32, rounds=600 if ctx.quick else 4000)])
     ctx.assumptions += ["data races are observed by Go's race detector (the sensor); a report counts only when a WRITING access "
                         "has a go-geom frame; the harness's own deliberate race (control run) proves the sensor is alive",
                         "purity is judged on bitwise digests of every argument (flat coordinates, ends, byte slices, strings, "
-                        "shared coordinates) and of the exported package-level variables before and after each call",
+                        "shared coordinates, Bounds, GeoJSON Feature / FeatureCollection / Geometry / CRS values, "
+                        "TreeSet and intersection Result) and of the exported package-level variables before and after "
+                        "each sequential call; under concurrency one final snapshot per argument (every argument must have one)",
+                        "malformed / truncated encodings are handed to every decoder: the recorded result is the error class "
+                        "(dynamic type), texts are left open; a panic of a call is a recorded result too (C17 does not judge it)",
+                        "one *wkt.Encoder value is shared by all goroutines (the struct holds only its option, no per-call state); it is "
+                        "judged by the race sensor and by result equality, its own fields are not part of the snapshots",
+                        "concurrent pass: half free mix of (operation, argument) pairs, half one phase per operation (all goroutines "
+                        "in the same operation at once), so that rarely taken paths (decoder error paths) meet each other",
                         "interleavings are those the Go scheduler produced in this run (8 / 32 goroutines); the TLA+ design model "
                         "covers all interleavings of 2-3 processes x 2 calls"]
